@@ -3005,8 +3005,9 @@ class x86_mn(x86_mn_base):
                     break
                 if (name == 'push' or (is_reg(a) or is_address(a))) \
                         and a[x86_afs.size] == u16 and self.mnemo_mode is None:
+                    # keep looking: a 32-bit register further on wins
+                    # (e.g. the port register of 'out dx, eax')
                     self.mnemo_mode = u16
-                    break
 
             if self.mnemo_mode is None:
                 self.mnemo_mode = u32
